@@ -466,4 +466,15 @@ func Gen(c *core.Ctx) {
 		}
 		add(c, "view-ip4", tok("vip4 ", init, " ", h(p)))
 	}
+	// 11. table entries: a MAC entry with 0 … 70000 linked hosts (every count up to 300, then powers of two and their neighbours)
+	counts := []int{}
+	for n := 0; n <= 300; n++ {
+		counts = append(counts, n)
+	}
+	for _, n := range []int{511, 512, 513, 1000, 4095, 4096, 32767, 32768, 65535, 65536, 65537, 70000} {
+		counts = append(counts, n)
+	}
+	for _, n := range counts {
+		add(c, "entry-mac", tok("vmacentry ", h(c.RandBytes(6)), " ", r.Intn(4), " ", h(c.RandBytes(4)), " ", n))
+	}
 }
